@@ -1,7 +1,7 @@
 CONSTANTS
   Callers = {1, 2}
   CfgSet <- MCCfgSetQ
-  MaxTime = 3
+  MaxTime = 2
   Outs <- MCOuts
   Keys <- MCKeys
   Extended = FALSE
